@@ -20,8 +20,8 @@ ACCEPT, REJECT, SKIP = D.ACCEPT, D.REJECT, D.SKIP
 # -----------------------------------------------------------------------------------------------------------------
 TIERS = {
     #            per-builtin literals, restriction cases, chain cases, list cases, union cases, matrices, values/derived case
-    'quick':    dict(nb=250, nr=420, nc=90, nl=150, nu=150, nm=132, nv=44, pfrac=0.5),
-    'thorough': dict(nb=6000, nr=14000, nc=3000, nl=5000, nu=5000, nm=6000, nv=60, pfrac=0.35),
+    'quick':    dict(nb=250, nr=420, nc=90, nl=150, nu=150, nm=132, nv=44, pfrac=0.5, pcrash=0.03),
+    'thorough': dict(nb=6000, nr=14000, nc=3000, nl=5000, nu=5000, nm=6000, nv=60, pfrac=0.35, pcrash=0.001),
 }
 MATRIX_N = 12
 
@@ -92,6 +92,35 @@ def lit_class(t, s):
         b = t.builtin_ancestor()
         return D.classify(b.name, t.prim, s)
     return D.shape(s)
+
+
+def deep_facet_kinds(t):
+    ks = set(t.facet_kinds())
+    if t.item is not None:
+        ks |= deep_facet_kinds(t.item)
+    for m in t.members:
+        ks |= deep_facet_kinds(m)
+    return ks
+
+
+_DT_NAMES = tuple(D.DT_TYPES)
+
+
+def grey_dt_literal(t, s):
+    """list/union types over date/time members: literals whose items carry a time zone offset or hour 24 sit on the
+    grey spots of the XSD 1.0 date/time order (see dtref.dt_crosses)"""
+    return t.variety != 'atomic' and D.involves(t, _DT_NAMES) and re.search(r'[+-][0-9]{2}:[0-9]{2}|24:00|:60', s) is not None
+
+
+def crash_prone(t, s):
+    """literals that hit one of the memory-safety findings of notes/C09.md; they are executed in a sample only"""
+    if s == '' and D.involves_variety(t, 'list'):
+        return 'empty-list-canon'
+    if D.involves(t, ('date', 'dateTime')) and re.search(r'(^|\s)-[0-9]{4,}-', s):
+        return 'neg-year-canon'
+    if D.involves(t, _DT_NAMES) and re.search(r'[0-9]{10,}', s):
+        return 'year-overflow'
+    return None
 
 
 def parse_kv(fields):
@@ -233,6 +262,8 @@ class Judge:
     def __init__(self, F):
         self.F = F
         self.E = D.Evaluator()
+        self.deferred = []
+        self.mres = {}
 
     def alt_float(self, t, s):
         """diagnosis: verdict of the model when xs:float literals are kept in binary64 precision"""
@@ -247,6 +278,8 @@ class Judge:
 
     def judge_case(self, c, rec):
         F = self.F
+        self.deferred = []
+        self.mres = {}
         env, order = types_from_case(c)
         lines = list(rec.lines)
         pos = 0
@@ -347,6 +380,7 @@ class Judge:
         tk = tkey(t)
         cls = lit_class(t, s)
         mv = self.E.evaluate(t, s)
+        self.mres[(t.name, s)] = mv
         F.count('route1:' + (t.builtin_ancestor().name if t.variety == 'atomic' else t.variety))
         F.count('verdict:' + mv.v)
         role = o.get('role', 'main')
@@ -354,44 +388,64 @@ class Judge:
             F.skip(mv.why)
         else:
             F.distinct.add(core.h(tk, [f for a in t.chain() for f in a.facets if not a.builtin], s))
-            if mv.v != (ACCEPT if lib_ok else REJECT) and D.involves(t, ('float',)) and self.alt_float(t, s).v == (ACCEPT if lib_ok else REJECT):
-                cls = 'float-compared-as-double'
-            if mv.v == ACCEPT and not lib_ok:
-                self.violation('C09:rejects:%s:%s:%s' % (tk, cls, l[2].split(':')[-1]), 'validator rejects a literal that is in the lexical space and satisfies every facet', c, idx,
-                               expected='accept', observed=l[2])
-            elif mv.v == REJECT and lib_ok:
-                self.violation('C09:accepts:%s:%s:%s' % (tk, mv.why, cls), 'validator accepts a literal the reference rejects (%s)' % mv.why, c, idx, expected='reject: ' + mv.why, observed='accepted')
+            if mv.v != (ACCEPT if lib_ok else REJECT):
+                if t.variety != 'atomic':
+                    # decided after the whole case has been read: a list/union disagreement that merely repeats a
+                    # disagreement on one of its items/members is attributed to that item/member
+                    self.deferred.append((c, idx, t, s, mv, lib_ok, l[2]))
+                else:
+                    ktk = tk
+                    if mv.why.startswith('lex:') or (mv.v == ACCEPT and not t.facet_kinds()):
+                        ktk = t.builtin_ancestor().name        # lexical verdicts do not depend on the user facets
+                    if D.involves(t, ('float',)) and self.alt_float(t, s).v == (ACCEPT if lib_ok else REJECT):
+                        cls = 'float-compared-as-double'
+                    if mv.v == ACCEPT:
+                        self.violation('C09:rejects:%s:%s:%s' % (ktk, cls, l[2].split(':')[-1]), 'validator rejects a literal that is in the lexical space and satisfies every facet', c, idx,
+                                       expected='accept', observed=l[2])
+                    else:
+                        self.violation('C09:accepts:%s:%s:%s' % (ktk, mv.why, cls), 'validator accepts a literal the reference rejects (%s)' % mv.why, c, idx, expected='reject: ' + mv.why, observed='accepted')
             if len(F.samples) < 3 and role == 'main' and F.evals % 97 == 0:
                 F.samples.append({'type': tk, 'facets': [f for a in t.chain() if not a.builtin for f in a.facets], 'literal': s, 'expected': mv.v + (':' + mv.why if mv.why else ''), 'observed': l[2:]})
         # ---- axioms on the validator's own answers (no reference needed) ----
         cv = kv.get('cv', '~')
+        if cv == 'skipped':
+            F.count('canon:not-requested(crash-prone sample)')
+            if lib_ok and kv.get('self') != '0':
+                self.violation('C09:axiom:compare-self:%s:%s' % (tk, cls), 'compare(x,x) is not EQUAL', c, idx, expected='0', observed=kv.get('self'))
+            if xl is not None and len(xl) > 2 and xl[2] != 'NOTYPE':
+                self.judge_xsvalue(c, idx, t, s, mv, lib_ok, '~', xl, tk, cls)
+            return
         if not lib_ok:
             if cv != '~':
                 self.violation('C09:axiom:canon-of-invalid:%s:%s' % (tk, cls), 'getCanonicalRepresentation(toValidate=true) returned a form for a literal validate() rejects', c, idx, expected='null', observed=cv)
+            if xl is not None and len(xl) > 2 and xl[2] != 'NOTYPE':
+                self.judge_xsvalue(c, idx, t, s, mv, lib_ok, cv, xl, tk, cls)
             return
         F.axioms += 1
         if kv.get('self') != '0':
             self.violation('C09:axiom:compare-self:%s:%s' % (tk, cls), 'compare(x,x) is not EQUAL', c, idx, expected='0', observed=kv.get('self'))
-        has_pattern = 'pattern' in t.facet_kinds() or D.involves(t, ()) and False
-        user_facets = t.facet_kinds()
+        all_facets = deep_facet_kinds(t)
         if cv == '~' or cv.startswith('!'):
             F.count('canon:null-for-valid:' + (t.builtin_ancestor().name if t.variety == 'atomic' else t.variety))
             if cv.startswith('!'):
                 self.violation('C09:axiom:canon-throws:%s:%s' % (tk, cls), 'getCanonicalRepresentation threw for a valid literal', c, idx, expected='a string', observed=cv)
         else:
             canon = core.unesc(cv)
-            if kv.get('cn') != cv:
-                self.violation('C09:axiom:canon-validate-flag:%s:%s' % (tk, cls), 'canonical form differs with toValidate on/off', c, idx, expected=cv, observed=kv.get('cn'))
-            if kv.get('vc') != 'OK' and not (user_facets & {'pattern', 'length', 'minLength', 'maxLength', 'whiteSpace'}):
-                self.violation('C09:axiom:canon-invalid:%s:%s' % (tk, cls), 'the canonical form of a valid literal does not validate', c, idx, expected='canon validates', observed=[cv, kv.get('vc')])
             grey = False
             if t.variety == 'atomic' and t.prim in D.DT_RE:
                 if mv.v == SKIP and mv.why.startswith('datetime:'):
                     grey = True
                 elif mv.v != SKIP and mv.value is not None and D.dt_crosses(mv.value):
                     grey = True
-                if grey:
-                    F.skip('datetime:canon-axiom-at-grey-spot')
+            elif grey_dt_literal(t, s):
+                grey = True
+            if grey:
+                F.skip('datetime:canon-axiom-at-grey-spot')
+            if kv.get('cn') != cv:
+                self.violation('C09:axiom:canon-validate-flag:%s:%s' % (tk, cls), 'canonical form differs with toValidate on/off', c, idx, expected=cv, observed=kv.get('cn'))
+            # a canonical literal need not satisfy lexical facets (pattern, lengths of the literal): not demanded
+            if kv.get('vc') != 'OK' and not (all_facets & {'pattern', 'length', 'minLength', 'maxLength', 'whiteSpace'}):
+                self.violation('C09:axiom:canon-invalid:%s:%s' % (tk, cls), 'the canonical form of a valid literal does not validate', c, idx, expected='canon validates', observed=[cv, kv.get('vc')])
             if kv.get('vc') == 'OK' and not grey:
                 if kv.get('cmp') != '0' or kv.get('cmpr') != '0':
                     self.violation('C09:axiom:canon-changes-value:%s:%s' % (tk, cls), 'compare(x, canon(x)) is not EQUAL', c, idx, expected='0/0', observed=[cv, kv.get('cmp'), kv.get('cmpr')])
@@ -402,7 +456,11 @@ class Judge:
                 if ec is not None:
                     F.count('canon:compared')
                     if ec != canon:
-                        self.violation('C09:canon-form:%s:%s' % (tk, cls), 'canonical form differs from XSD 1.0 2e canonical representation', c, idx, expected=ec, observed=canon)
+                        ktk = t.builtin_ancestor().name if t.variety == 'atomic' else tk
+                        self.violation('C09:canon-form:%s:%s' % (ktk, cls), 'canonical form differs from XSD 1.0 2e canonical representation', c, idx, expected=ec, observed=canon)
+                elif t.variety == 'list' and canon.endswith(' ') and canon.strip(' '):
+                    self.violation('C09:canon-form:list:trailing-space', 'canonical form of a list value ends with a blank (not in the lexical space of a list after white space collapse)', c, idx,
+                                   expected=canon.rstrip(' '), observed=canon)
         # ---- route 2: XSValue ----
         if xl is not None and len(xl) > 2 and xl[2] != 'NOTYPE':
             self.judge_xsvalue(c, idx, t, s, mv, lib_ok, cv, xl, tk, cls)
@@ -460,6 +518,10 @@ class Judge:
         valid = [x == '1' for x in mvline[2:]]
         M = [r[3:] for r in rows]
         tk = tkey(t)
+        prim0 = t.prim if t.variety == 'atomic' else None
+        if prim0 not in D.ORDERED_PRIMS:
+            # unordered types: only EQUAL / not EQUAL is meaningful (string compare returns a difference)
+            M = [[('0' if x == '0' else 'N') if re.fullmatch(r'-?[0-9]+', x) else x for x in row] for row in M]
         mvs = [self.E.evaluate(t, s) for s in vals]
         prim = t.prim if t.variety == 'atomic' else None
         ordered = prim in D.ORDERED_PRIMS
@@ -473,7 +535,7 @@ class Judge:
             for j in use:
                 o = M[i][j]
                 F.evals += 1
-                if o not in ('-1', '0', '1', '2'):
+                if o not in ('-1', '0', '1', '2', 'N'):
                     self.violation('C09:order:compare-throws:%s:%s' % (tk, o.split(':')[-1]), 'compare() threw on two valid literals', c, idx, expected='a result', observed=[vals[i], vals[j], o])
                     continue
                 # reference
@@ -487,7 +549,9 @@ class Judge:
                     e = None
                 if e is not None:
                     if ordered and t.variety == 'atomic':
-                        if str(e) != o:
+                        if e == 2 and o == '-1' and M[j][i] == '-1':
+                            pass        # reported once per type by the antisymmetry rule below (INDETERMINATE folded into LESS_THAN)
+                        elif str(e) != o:
                             ci, cj = lit_class(t, vals[i]), lit_class(t, vals[j])
                             if prim == 'float':
                                 try:
@@ -507,8 +571,10 @@ class Judge:
                     o2 = M[j][i]
                     F.axioms += 1
                     if ordered:
-                        if sym(o) != o2:
-                            self.violation('C09:axiom:antisymmetry:%s' % tk, 'compare(a,b) and compare(b,a) are not mirror images', c, idx, expected=sym(o), observed=[vals[i], vals[j], o, o2])
+                        if o == '-1' and o2 == '-1':
+                            self.violation('C09:axiom:antisymmetry:%s:both-less-than' % tk, 'compare(a,b) and compare(b,a) both answer LESS_THAN', c, idx, expected='mirror images or INDETERMINATE', observed=[vals[i], vals[j], o, o2])
+                        elif sym(o) != o2:
+                            self.violation('C09:axiom:antisymmetry:%s:%s/%s' % (tk, o, o2), 'compare(a,b) and compare(b,a) are not mirror images', c, idx, expected=sym(o), observed=[vals[i], vals[j], o, o2])
                     elif (o == '0') != (o2 == '0'):
                         self.violation('C09:axiom:equality-symmetry:%s' % tk, 'compare(a,b)==EQUAL but compare(b,a)!=EQUAL', c, idx, expected=o, observed=[vals[i], vals[j], o, o2])
             if M[i][i] != '0':
@@ -519,13 +585,13 @@ class Judge:
                 if j == i:
                     continue
                 a = M[i][j]
-                if a not in ('-1', '0'):
+                if a not in ('-1', '0') or (a == '-1' and M[j][i] == '-1'):
                     continue
                 for k2 in use:
                     if k2 == i or k2 == j:
                         continue
                     b = M[j][k2]
-                    if b not in ('-1', '0') or (not ordered and (a != '0' or b != '0')):
+                    if b not in ('-1', '0') or (not ordered and (a != '0' or b != '0')) or (b == '-1' and M[k2][j] == '-1'):
                         continue
                     F.triples += 1
                     exp = '0' if (a == '0' and b == '0') else '-1'
@@ -579,8 +645,42 @@ class Judge:
                 F.count('route3:psvi')
 
     # ---- restriction / list / union relations (reference-free) -----------------------------------------------------------
+    def culprit(self, t, s, vres):
+        """an item / member / base of t on which library and model already disagree for (a token of) s"""
+        cands = []
+        if t.variety == 'list':
+            cands = [(t.item, tok) for tok in (s.split(' ') if s else [])]
+        elif t.variety == 'union':
+            cands = [(m, s) for m in t.members]
+        if t.base is not None:
+            cands.append((t.base, s))
+        for (m, tok) in cands:
+            mv = self.mres.get((m.name, tok))
+            lv = vres.get((m.name, tok))
+            if mv is not None and lv is not None:
+                if mv.v == SKIP or mv.v != (ACCEPT if lv else REJECT):
+                    return (m, tok)
+            if m.variety != 'atomic' and mv is None:
+                cu = self.culprit(m, tok, vres)
+                if cu:
+                    return cu
+        return None
+
     def judge_relations(self, c, env, order, vres, vstep):
         F = self.F
+        for (c0, idx, t, s, mv, lib_ok, lraw) in self.deferred:
+            cu = self.culprit(t, s, vres)
+            if cu is not None:
+                F.count('consequential-list-union-disagreements')
+                continue
+            tk = tkey(t)
+            cls = 'items:' + '+'.join(sorted(set(lit_class(t.item, tok) for tok in s.split(' ') if tok))) if t.variety == 'list' and t.item.variety == 'atomic' else D.shape(s)
+            if mv.v == ACCEPT:
+                self.violation('C09:rejects:%s:%s:%s' % (tk, cls, lraw.split(':')[-1]), 'validator rejects a list/union literal the reference accepts (items/members agree with the reference)', c, idx,
+                               expected='accept', observed=lraw)
+            else:
+                self.violation('C09:accepts:%s:%s:%s' % (tk, mv.why, cls), 'validator accepts a list/union literal the reference rejects (%s; items/members agree with the reference)' % mv.why, c, idx,
+                               expected='reject: ' + mv.why, observed='accepted')
         for (tn, s), ok in list(vres.items()):
             t = env.get(tn)
             if t is None or t.builtin:
@@ -624,17 +724,30 @@ def norm_for(t, raw):
     return D.ws_collapse(raw) if ws is None else D.ws_apply(ws, raw)
 
 
+PCRASH = [0.03]
+
+
 def add_value(c, t, raw, r, pfrac, seen, x=False, role='main', parse=True):
     """v step on the normalised literal (+ p step on the raw one)"""
     s = norm_for(t, raw)
     k = (t.name, s)
+    cp = crash_prone(t, s)
+    full = True
+    if cp:
+        # literals that hit a known memory-safety finding are executed completely only in a sample of the cases
+        # (every such execution costs a sanitizer report and a driver restart); otherwise validate()/compare() only
+        full = r.random() < PCRASH[0]
+        if not full and cp == 'year-overflow':
+            return
     if k not in seen:
         seen.add(k)
         o = dict(k='v', t=t.name, i='%d' % len(c.steps), role=role)
         if x:
             o['x'] = '1'
+        if not full:
+            o['nc'] = '1'
         c.txt(s, **o)
-    if parse and r.random() < pfrac and route3_ok(t, raw) and ('p', t.name, raw) not in seen:
+    if parse and full and r.random() < pfrac and route3_ok(t, raw) and ('p', t.name, raw) not in seen:
         seen.add(('p', t.name, raw))
         att = '1' if r.random() < 0.4 else '0'
         c.meta.setdefault('pending', []).append((t.name, raw, att))
@@ -862,7 +975,9 @@ def chunk_matrix(r, cfg, cid, tname=None):
     if len(good) < 3:
         return []
     vals = []
-    while len(vals) < MATRIX_N and len(vals) < len(good) * 3:
+    for _ in range(60):
+        if len(vals) >= MATRIX_N:
+            break
         a = r.choice(good)
         if a not in vals:
             vals.append(a)
@@ -876,8 +991,6 @@ def chunk_matrix(r, cfg, cid, tname=None):
                 x = norm_for(t, x)
                 if x not in vals and ev.evaluate(t, x).v == ACCEPT:
                     vals.append(x)
-        if len(vals) > 40:
-            break
     vals = vals[:MATRIX_N]
     c = core.Case(cid, 'dtype', meta={'class': 'matrix:' + tname})
     c.txt(SEP1.join(vals), k='m', t=tname, i='m')
@@ -936,6 +1049,7 @@ def plan(tier, seed):
 
 def build_chunk(tier, seed, ch):
     cfg = TIERS[tier]
+    PCRASH[0] = cfg['pcrash']
     kind, a, n = ch
     cases = []
     if kind == 'builtin':
